@@ -96,8 +96,7 @@ theorem matchKeyword_text (ns : List XNs) (hnsY : nsGet ns none = some yinNsUri)
   have h1 : (YangStr.matchKw sText).2.1 = 0 := by decide
   have h0 : sText.isEmpty = false := rfl
   have hl : sText.length = 4 := rfl
-  have hp : sText.isPrefixOf sText = true := by decide
-  simp only [matchKeyword, h0, hnsY, h1, hl, hp]
+  simp only [matchKeyword, h0, hnsY, h1, hl, textMatch_text]
   simp
 
 theorem matchKeyword_value (ns : List XNs) (hnsY : nsGet ns none = some yinNsUri) :
